@@ -738,3 +738,49 @@ package ctfe
 //@ ensures [200-means-sth-written] li.instanceOpts.ErrorMapper == nil && result0 == 200 ==> result1 == nil && g.res1 == nil && ws.called && ws.res == nil
 //@ ensures [non200-error] result0 != 200 ==> result1 != nil
 //@ at ws assert [writes-the-getter-sth] ws.sth == g.res0
+
+// ---- C15: configuration validation ------------------------------------------------------------
+
+//@ func ValidateLogConfig
+//@ props C15
+//@ modifies nothing
+//@ loop-frames
+//@ arith int
+//@ site ParsePKIXPublicKey#1 as pk
+//@ site UnmarshalNew#1 as un
+//@ site CheckValid#1 as cvs
+//@ site CheckValid#2 as cvl
+//@ site AsTime#1 as ats
+//@ site AsTime#2 as atl
+//@ site NewSignatureVerifier#1 as nv
+//@ site ToSignedTreeHead#1 as ts
+//@ site VerifySTHSignature#1 as vs
+//@ site mysql.ParseDSN#1 as my
+//@ site pgconn.ParseConfig#1 as pg
+//@ site strings.HasPrefix#1 as hm
+//@ site strings.HasPrefix#2 as hp
+//@ requires cfg != nil
+//@ fresh result0
+//@ loop 1 invariant forall k int :: 0 <= k && k <= rangeindex ==> has(stringToKeyUsage, cfg.ExtKeyUsages[k])
+//@ ensures [config-xor-error] (result0 != nil) != (result1 != nil)
+//@ ensures [log-id-required] cfg.LogId == 0 ==> result1 != nil
+//@ ensures [public-key-must-parse] pk.called && pk.res1 != nil ==> result1 != nil
+//@ ensures [mirror-has-a-public-key-and-no-private-key] cfg.IsMirror && (cfg.PublicKey == nil || cfg.PrivateKey != nil) ==> result1 != nil
+//@ ensures [frozen-sth-needs-a-public-key] cfg.FrozenSth != nil && cfg.PublicKey == nil ==> result1 != nil
+//@ ensures [non-mirror-needs-a-parseable-private-key] !cfg.IsMirror && (cfg.PrivateKey == nil || (un.called && un.res1 != nil)) ==> result1 != nil
+//@ ensures [must-not-reject-every-certificate] cfg.RejectExpired && cfg.RejectUnexpired ==> result1 != nil
+//@ ensures [only-known-eku-names] result1 == nil ==> (forall k int :: 0 <= k && k < len(cfg.ExtKeyUsages) ==> has(stringToKeyUsage, cfg.ExtKeyUsages[k]))
+//@ ensures [timestamps-must-be-valid] (cvs.called && cvs.res != nil) || (cvl.called && cvl.res != nil) ==> result1 != nil
+//@ ensures [window-must-be-ordered] result1 == nil && cfg.NotAfterStart != nil && cfg.NotAfterLimit != nil ==> instant(ats.res) <= instant(atl.res)
+//@ ensures [merge-delays-non-negative-and-ordered] result1 == nil ==> 0 <= cfg.ExpectedMergeDelaySec && cfg.ExpectedMergeDelaySec <= cfg.MaxMergeDelaySec
+//@ ensures [frozen-sth-must-verify-under-the-public-key] result1 == nil && cfg.FrozenSth != nil ==> nv.called && nv.res1 == nil && ts.called && ts.res1 == nil && vs.called && vs.res == nil && result0.FrozenSTH == ts.res0
+//@ ensures [ctfe-storage-needs-a-usable-connection-string] result1 == nil && cfg.ExtraDataIssuanceChainStorageBackend == configpb.LogConfig_ISSUANCE_CHAIN_STORAGE_BACKEND_CTFE ==> len(cfg.CtfeStorageConnectionString) > 0 && ((hm.res && my.called && my.res1 == nil) || (!hm.res && hp.called && hp.res && pg.called && pg.res1 == nil)) && result0.CTFEStorageConnectionString == cfg.CtfeStorageConnectionString
+//@ ensures [accepts-every-well-formed-config] result1 != nil ==> cfg.LogId == 0 || (pk.called && pk.res1 != nil) || (cfg.IsMirror && (cfg.PublicKey == nil || cfg.PrivateKey != nil)) || (cfg.FrozenSth != nil && cfg.PublicKey == nil) || (!cfg.IsMirror && (cfg.PrivateKey == nil || (un.called && un.res1 != nil))) || (cfg.RejectExpired && cfg.RejectUnexpired) || (exists k int :: 0 <= k && k < len(cfg.ExtKeyUsages) && !has(stringToKeyUsage, cfg.ExtKeyUsages[k])) || (cvs.called && cvs.res != nil) || (cvl.called && cvl.res != nil) || (cfg.NotAfterStart != nil && cfg.NotAfterLimit != nil && instant(atl.res) < instant(ats.res)) || cfg.MaxMergeDelaySec < 0 || cfg.ExpectedMergeDelaySec < 0 || cfg.ExpectedMergeDelaySec > cfg.MaxMergeDelaySec || (cfg.FrozenSth != nil && ((nv.called && nv.res1 != nil) || (ts.called && ts.res1 != nil) || (vs.called && vs.res != nil))) || (cfg.ExtraDataIssuanceChainStorageBackend == configpb.LogConfig_ISSUANCE_CHAIN_STORAGE_BACKEND_CTFE && (len(cfg.CtfeStorageConnectionString) == 0 || (my.called && my.res1 != nil) || (pg.called && pg.res1 != nil) || (!hm.res && !hp.res)))
+//@ ensures [validated-values-are-the-parsed-ones] result1 == nil ==> result0.Config == cfg && (cfg.PublicKey != nil ==> result0.PubKey == pk.res0) && (!cfg.IsMirror ==> result0.PrivKey == un.res0) && (cfg.NotAfterStart != nil ==> result0.NotAfterStart != nil && *result0.NotAfterStart == ats.res) && (cfg.NotAfterStart == nil ==> result0.NotAfterStart == nil) && (cfg.NotAfterLimit != nil ==> result0.NotAfterLimit != nil && *result0.NotAfterLimit == atl.res) && (cfg.NotAfterLimit == nil ==> result0.NotAfterLimit == nil) && result0.ExtraDataIssuanceChainStorageBackend == cfg.ExtraDataIssuanceChainStorageBackend
+//@ at pk assert [parses-the-configured-der] pk.derBytes == cfg.PublicKey.Der
+//@ at nv assert [verifier-for-the-configured-public-key] nv.pk == vCfg.PubKey && (cfg.PublicKey != nil ==> vCfg.PubKey == pk.res0)
+//@ at ts assert [sth-fields-from-the-config] ts.r.TreeSize == uint64(cfg.FrozenSth.TreeSize) && ts.r.Timestamp == uint64(cfg.FrozenSth.Timestamp) && ts.r.SHA256RootHash == cfg.FrozenSth.Sha256RootHash && ts.r.TreeHeadSignature == cfg.FrozenSth.TreeHeadSignature
+//@ at vs assert [verifies-that-sth-with-that-verifier] vs.sth == *ts.res0 && vs.s == *nv.res0
+//@ at ats assert [start-of-the-config] ats.x == cfg.NotAfterStart
+//@ at atl assert [limit-of-the-config] atl.x == cfg.NotAfterLimit
+//@ at pg assert [the-whole-connection-string] pg.connString == cfg.CtfeStorageConnectionString
